@@ -85,16 +85,16 @@ UC   == [w \in 1..Len(Family) |-> [e \in 1..NEinsums(Family[w]) |-> EinsumTensor
 (* Exhaustive expressions: every tree of depth <= MaxDepth over Leaves(W),  *)
 (* for every selected (workload, Einsum).  The top level is enumerated by   *)
 (* quantifiers so that TLC never has to build the set of all trees.         *)
-ExhInit ==
-  /\ n = 0
-  /\ \E p \in Pairs :
+ExhInitFor(depth, alpha, pairs) ==
+  \E p \in pairs :
        LET W == Family[p[1]]
-           S == Trees(MaxDepth - 1, Leaves(W))
+           S == Trees(depth - 1, alpha \cap Defined(W))
        IN \/ \E a \in S : c = [w |-> p[1], e |-> p[2], x |-> a]
-          \/ /\ MaxDepth > 1
+          \/ /\ depth > 1
              /\ \E a \in S : c = [w |-> p[1], e |-> p[2], x |-> <<"~", a>>]
-          \/ /\ MaxDepth > 1
+          \/ /\ depth > 1
              /\ \E o \in BinOps, a \in S, b \in S : c = [w |-> p[1], e |-> p[2], x |-> <<o, a, b>>]
+ExhInit == n = 0 /\ ExhInitFor(MaxDepth, Alphabet, Pairs)
 ExhNext == UNCHANGED vars
 
 ExhEmit == PrintT(ToJson([k |-> "expr", w |-> c.w, e |-> c.e] @@ ExprOutT(c.x, TabC[c.w][c.e], UC[c.w][c.e])))
@@ -105,16 +105,16 @@ ASSUME PrintT(ToJson([k |-> "family", family |-> [w \in 1..Len(Family) |-> WOut(
 ---------------------------------------------------------------------------
 (* Exhaustive dictionaries: 0, 1 or 2 keys of depth <= 2 over AlphaDict,    *)
 (* with and without Other, Other in every position.                         *)
-DictInit ==
-  /\ n = 0
-  /\ \E p \in Pairs :
+DictInitFor(alpha, pairs) ==
+  \E p \in pairs :
        LET W == Family[p[1]]
-           L == Leaves(W)
+           L == alpha \cap Defined(W)
            S == {<<"n", a>> : a \in L} \cup {<<"~", <<"n", a>>>> : a \in L}
        IN \E keys \in {<<>>} \cup {<<a>> : a \in S} \cup {<<a, b>> : a \in S, b \in S} :
           \E op \in 0..(Len(keys) + 1) :
              /\ \A j, k \in 1..Len(keys) : j < k => keys[j] # keys[k]
              /\ c = [w |-> p[1], e |-> p[2], keys |-> keys, opos |-> op]
+DictInit == n = 0 /\ DictInitFor(Alphabet, Pairs)
 
 \* opos = 0: no Other key; opos = j: Other is the j-th key of the dictionary
 DictOutT(keys, opos, tab, U) ==
@@ -133,6 +133,20 @@ DictEmit == PrintT(ToJson([k |-> "dict", w |-> c.w, e |-> c.e]
 
 DictInv == ExactlyOnce([k \in 1..Len(c.keys) |-> EvalT(c.keys[k], TabC[c.w][c.e], UC[c.w][c.e])],
                        c.opos > 0, UC[c.w][c.e])
+
+---------------------------------------------------------------------------
+(* The quick tier in one TLC run: depth <= 2 over all names for the whole   *)
+(* family, depth <= 3 over two 4-name alphabets for one selected pair each, *)
+(* and the exhaustive dictionaries of those two pairs.                      *)
+QuickInit ==
+  /\ n = 0
+  /\ \/ ExhInitFor(2, AlphaAll, PairsAll)
+     \/ ExhInitFor(3, AlphaQ0, {PairAt(EnvInt("C22_PAIR", 1))})
+     \/ ExhInitFor(3, AlphaQ1, {PairAt(EnvInt("C22_PAIR2", 2))})
+     \/ DictInitFor(AlphaDict, PairsSel2)
+IsDict == "keys" \in DOMAIN c
+QuickEmit == IF IsDict THEN DictEmit ELSE ExhEmit
+QuickInv  == IsDict => DictInv
 
 ---------------------------------------------------------------------------
 (* Random (-simulate, reproducible under -seed): workloads of 1-4 Einsums   *)
